@@ -433,3 +433,69 @@ func VerifC12Limits() {
 	verifCheckLines(stream, d.copies)
 	verifCover("end")
 }
+
+// ---- UDP receive loop (native twins of the engine's UDP socket model: a real loopback socket)
+var verifUDPNative *net.UDPConn
+
+func verifNewUDPConn() *net.UDPConn {
+	a, _ := net.ResolveUDPAddr("udp", "127.0.0.1:0")
+	c, err := net.ListenUDP("udp", a)
+	if err != nil {
+		panic(err)
+	}
+	verifUDPNative = c
+	return c
+}
+
+func verifUDPSend(c *net.UDPConn, dg []byte) {
+	s, err := net.DialUDP("udp", nil, c.LocalAddr().(*net.UDPAddr))
+	if err != nil {
+		panic(err)
+	}
+	s.Write(dg)
+	s.Close()
+	time.Sleep(20 * time.Millisecond)
+}
+
+func verifUDPClose(c *net.UDPConn) { c.Close() }
+
+// VerifC12UDPLoop: datagrams queued back to back on the socket are each processed as their own stream by
+// the real receive loop (consumeUdp), whole and in order, although the loop reuses one receive buffer.
+func VerifC12UDPLoop() {
+	maxL := verifDigit("L", 3)
+	d := &verifCapDisp{}
+	l := NewListener("verif:2003", 0, NewPlain(d))
+	conn := verifNewUDPConn()
+	l.udpConn = conn
+	var dgs [][]byte
+	for i := 0; i < 2; i++ {
+		dg := verifBytes("dg", 1+verifChoice("L", maxL))
+		for _, b := range dg {
+			verifAssume(b != '\r')
+		}
+		dgs = append(dgs, dg)
+		verifUDPSend(conn, dg)
+	}
+	done := make(chan struct{})
+	go func() {
+		l.consumeUdp()
+		close(done)
+	}()
+	verifSettle()
+	if !verifIsSymbolic() {
+		time.Sleep(100 * time.Millisecond)
+	}
+	close(l.shutdown)
+	verifUDPClose(conn)
+	verifSettle()
+	l.wg.Wait()
+	var all []byte
+	for _, dg := range dgs {
+		all = append(all, dg...)
+		if len(dg) > 0 && dg[len(dg)-1] != '\n' {
+			all = append(all, '\n') // each datagram is its own stream: its last line ends with the datagram
+		}
+	}
+	verifCheckLines(all, d.copies)
+	verifCover("end")
+}
